@@ -72,6 +72,39 @@ def doistAdo (pool : List (Spec τ)) (tock start : τ) (limit : Option τ) (fuel
   | (es, deeds, false) =>
       let r := adoLoop pool tock (limit.map (start + ·)) env fuel 0 start deeds (specs.map Spec.id) w
       ({ r.1 with evs := es ++ r.1.evs }, r.2)
+/-- `Doist.ado` whose task is CANCELLED at its `(j+1)`-th `await asyncio.sleep(0.0)` (`task.cancel()` from anywhere):
+`asyncio.CancelledError` is a `BaseException`, none of the three handlers catches it, `finally: self.exit()` runs, the
+error propagates.  No fuel: the cancellation ends the loop.  Bool = the cancellation was delivered (the run had not ended
+before).  Written from the same source loop as `adoLoop`. -/
+def adoLoopCancel (pool : List (Spec τ)) (tock : τ) (stopAt : Option τ) :
+    Nat → Nat → τ → List (RT τ) → List Id → Final τ × Bool
+  | 0, n, now, deeds, doers =>
+      match runCycle pool now tock 0 deeds { doers := doers } with
+      | (es, un, c, some x) => (⟨es ++ stopEvs now (c.pr ++ un), false, now, x == .err, false, c.doers, n⟩, false)
+      | (es, _, c, none) =>
+          -- tick() done inside recur(); CancelledError raised at the await; finally: exit()
+          (⟨es ++ stopEvs (now + tock) c.pr, false, now + tock, false, false, c.doers, n+1⟩, true)
+  | j+1, n, now, deeds, doers =>
+      match runCycle pool now tock 0 deeds { doers := doers } with
+      | (es, un, c, some x) => (⟨es ++ stopEvs now (c.pr ++ un), false, now, x == .err, false, c.doers, n⟩, false)
+      | (es, _, c, none) =>
+          let now' := now + tock
+          if c.pr.isEmpty then (⟨es ++ stopEvs now' [], true, now', false, false, c.doers, n+1⟩, false)
+          else
+            let stop := match stopAt with | some s => decide (s ≤ now') | none => false
+            if stop then (⟨es ++ stopEvs now' c.pr, false, now', false, false, c.doers, n+1⟩, false)
+            else
+              let r := adoLoopCancel pool tock stopAt j (n+1) now' c.pr c.doers
+              ({ r.1 with evs := es ++ r.1.evs }, r.2)
+
+def doistAdoCancel (pool : List (Spec τ)) (tock start : τ) (limit : Option τ) (j : Nat) (specs : List (Spec τ)) :
+    Final τ × Bool :=
+  match enterList start specs with
+  | (es, deeds, true) => (⟨es ++ stopEvs start deeds, false, start, true, false, specs.map Spec.id, 0⟩, false)
+  | (es, deeds, false) =>
+      let r := adoLoopCancel pool tock (limit.map (start + ·)) j 0 start deeds (specs.map Spec.id)
+      ({ r.1 with evs := es ++ r.1.evs }, r.2)
+
 end ado
 
 end Hio.Sched
